@@ -28,7 +28,9 @@ def do_case(ctx, inp):
     va = pnd.variable_ndarray(np.zeros(n, dtype=np.int64), variables=vs)
     unknown = any(k not in ids for k in d)
     ctx.case(inp, nontrivial=unknown or any(not isinstance(i, str) for i in ids) or any(b != [0, 1] for b in bnds),
-             tags={"dflt-" + (dfl if isinstance(dfl, str) else "callable-const")} | ({"unknown-id"} if unknown else set()))
+             tags={"dflt-" + (dfl if isinstance(dfl, str) else "callable-const")} | ({"unknown-id"} if unknown else set())
+                  | ({"hash-colliding-twin-of-previous-array"} if inp.get("twin") else set())
+                  | ({"explicit-zero-for-known-id"} if any(v == 0 and k in ids for k, v in d.items()) else set()))
     if dfl == "lower":
         got = va.construct(d)
     elif dfl == "nan":
@@ -81,11 +83,22 @@ def run(ctx):
         ids = rng.sample(POOL, k)
         bnds = [[0, 1] if rng.random() < 0.5 else sorted([rng.randint(-5, 5), rng.randint(-5, 5)]) for _ in ids]
         dk = rng.sample(POOL, rng.randint(0, 4))
-        dct = [[i, rng.randint(-9, 9)] for i in dk]
+        dct = [[i, rng.choice([0, 0, rng.randint(-9, 9)])] for i in dk]        # explicit zeros are frequent: 0 is a value, not "absent"
         # boolean_ndarray.from_list treats a tuple in first position as a nested group (documented input form),
         # so tuple ids are not used inside `lst`
         lst = rng.sample([i for i in POOL if not isinstance(i, tuple)], rng.randint(0, 4))
         vec = [rng.choice([0, 1, 1, 2]) for _ in ids]
         dfl = rng.choice(["lower", "nan", "upper", {"const": rng.randint(-3, 3)}])
         row = [rng.randint(-5, 5) for _ in range(k + 1)]
-        do_case(ctx, {"ids": ids, "bnds": bnds, "dict": dct, "lst": lst, "vec": vec, "dflt": dfl, "row": row})
+        case = {"ids": ids, "bnds": bnds, "dict": dct, "lst": lst, "vec": vec, "dflt": dfl, "row": row}
+        do_case(ctx, case)
+        if rng.random() < 0.35:
+            # a twin handled right after, in the same process: same ids in the same order, bounds replaced by bounds that
+            # collide under puan's hashes (hash(lo)+hash(hi); hash(-1) == hash(-2)), flipping columns between (0,1) and not
+            def collide(b):
+                lo, hi = b
+                opts = [[lo - 1, hi + 1]] + ([[lo + 1, hi - 1]] if lo + 1 <= hi - 1 else []) + ([[-2, hi + 1 - 1]] if lo == -1 else []) \
+                       + ([[-1, 3]] if b == [0, 1] else []) + ([[0, 1]] if b in ([-1, 3], [-1, 2], [-2, 3]) else [])
+                return rng.choice(opts)
+            tw = dict(case); tw["bnds"] = [collide(b) if rng.random() < 0.7 else b for b in bnds]; tw["twin"] = True; tw["prev"] = case
+            do_case(ctx, tw)
